@@ -359,6 +359,11 @@ func (s *socket) MaybeUpgrade(transport transports.Transport) {
 
 	// we force a polling cycle to ensure a fast upgrade
 	check = func() {
+		// serialise with flush(): both test Writable() and then hand a batch to the
+		// transport; interleaved, the second batch finds no pending poll request
+		s.flushMu.Lock()
+		defer s.flushMu.Unlock()
+
 		if transports.POLLING == s.Transport().Name() && s.Transport().Writable() {
 			if verifhook.Enabled {
 				verifhook.Point("socket.upgrade.check.window", s)
